@@ -434,6 +434,10 @@ func (e *Env) WriteOnly(toks []string) string {
 
 func (e *Env) write(toks []string) string {
 	e.BeginOp()
+	return e.writeNoBegin(toks)
+}
+
+func (e *Env) writeNoBegin(toks []string) string {
 	var pts []models.Point
 	for _, t := range toks {
 		p, err := ParsePt(t)
